@@ -16,7 +16,7 @@ def run(ctx):
     # T: fake-clock bubbles (exact, no tolerance): SleepContext for every duration x deadline position x
     #    cancellation moment; JitterTicker for (d, jitter) pairs incl. jitter = 0 with Reset / Stop at every
     #    phase, channel watched for 10*d after Stop; judged by Trace_XTime
-    bubble_tv(ctx, "TestXTime", "xtime", "Trace_XTime", "tv.cfg", "xtime", {"n": ctx.pick(80, 800)}, silent=False)
+    bubble_tv(ctx, "TestXTime", "xtime", "Trace_XTime", "tv.cfg", "xtime", {"n": ctx.pick(80, 3000)}, silent=False)
     bubble_tv(ctx, "TestXTime", "xtime", "Trace_XTime", "tv.cfg", "xtime perturbed", {"n": ctx.pick(80, 800)}, silent=False, perturb=True)
     # real clock, pre-1.23 timer semantics (what the library's own go.mod selects): a sleep cancelled right when its timer
     # fires, followed at once by another sleep - nil only after at least d (lower bounds are sound on a real clock)
